@@ -101,6 +101,8 @@ def run_check(prop, tier, jobs):
                 if fn not in b.model.em.by_cname:
                     continue            # not instantiated in this configuration
                 found_names.add(fn)
+                if b.cfg.get('only') is not None and fn not in b.cfg['only']:
+                    continue            # proved in the base configuration: this configuration only re-proves what depends on it
                 if relevant(sp, prop):
                     tasks.append((b, fn))
         results = []
